@@ -54,6 +54,13 @@ pub fn long_key(k: &[u8]) -> Vec<u8> {
     v
 }
 
+/// a key beyond 4096 bytes: 4100 times 0x61, then `k`
+pub fn very_long_key(k: &[u8]) -> Vec<u8> {
+    let mut v = vec![0x61u8; 4100];
+    v.extend_from_slice(k);
+    v
+}
+
 pub fn gen_key(rng: &mut Rng) -> Vec<u8> {
     // short keys over a tiny alphabet so that prefixes, 0xFF edges and lexical neighbours are common
     let len = match rng.below(10) {
@@ -117,6 +124,8 @@ impl Property for C02 {
                 t(0, &[2], Some(0), 5), t(0, &[1, 255, 3], Some(1), 5), t(0, &[1, 255], None, 9)]),
             ("f2-ff-prefix-neighbour-file".into(), vec![Op::Open { file: true },
                 t(0, &[2], Some(0), 5), t(0, &[1, 255, 3], Some(1), 5), Op::Delete { a: 0, key: vec![1, 255], ts: 9 }]),
+            ("keys-beyond-4096-bytes".into(), vec![
+                t(0, &very_long_key(b"a"), Some(0), 5), t(0, &very_long_key(b"ab"), Some(1), 9), t(0, &very_long_key(b""), None, 9), t(1, &very_long_key(b"a"), Some(2), 10)]),
             ("other-author-untouched".into(), vec![
                 t(1, b"ab", Some(0), 5), t(0, b"ab", Some(0), 5), t(0, b"a", None, 10)]),
             // known finding F11: value order and fingerprint ignore `len`
@@ -146,10 +155,14 @@ impl Property for C02 {
         }
         if rng.chance(1, 10) {
             // long keys: lengths 255-258, prefix relations across the 256-byte mark
+            let very = thorough && rng.chance(1, 8);
+            if very {
+                ops.truncate(6);
+            }
             for o in ops.iter_mut() {
                 match o {
                     Op::Insert { key, .. } | Op::InsertRaw { key, .. } | Op::Delete { key, .. } | Op::Remote { key, .. } | Op::RemoteLen { key, .. } | Op::Neighbour { key, .. } => {
-                        *key = long_key(key);
+                        *key = if very { very_long_key(key) } else { long_key(key) };
                     }
                     _ => {}
                 }
